@@ -214,3 +214,99 @@ def gen_backends():
     body += 'def defaultEncoding : Str := %s\n\n' % _chars(pybtex.io.get_default_encoding())
     body += 'end Pybtex.Gen\n'
     return 'Backends.lean', body
+
+
+# ------------------------------------------------------------------------------------------------
+# more input encodings for latex.Backend(encoding) / write_to_file: Gen/BackendsEnc.lean
+# ------------------------------------------------------------------------------------------------
+
+# (spellings, all naming one codec of the interpreter); the first spelling is the one the generators use most
+EXTRA_ENCODINGS = [
+    ['iso-8859-2', 'latin2', 'ISO8859-2', 'l2'],
+    ['iso-8859-15', 'latin9', 'ISO_8859-15'],
+    ['cp1252', 'windows-1252', 'CP1252'],
+    ['cp1250', 'windows-1250'],
+    ['koi8-r', 'KOI8-R'],
+    ['cp437', 'IBM437'],
+    ['mac-roman', 'macroman'],
+    ['iso-8859-7', 'greek'],
+]
+
+
+def encodable_ranges(name):
+    """the code points `c.encode(name)` accepts, as sorted inclusive ranges.  For a character-map codec these are the characters
+    its 256 bytes decode to; re-checked by encoding every code point below U+3000 and a sample above"""
+    import codecs
+    info = codecs.lookup(name)
+    chars = set()
+    for b in range(256):
+        try:
+            d = bytes([b]).decode(name)
+        except UnicodeDecodeError:
+            continue
+        if len(d) != 1:
+            raise ValueError('%s: byte %d decodes to %r' % (name, b, d))
+        chars.add(ord(d))
+
+    def ok(cp):
+        try:
+            chr(cp).encode(name)
+        except UnicodeEncodeError:
+            return False
+        return True
+    sample = list(range(0x3000)) + [0x20ac, 0x4e2d, 0xfb01, 0xfffd, 0x1d400, 0x10ffff] + list(range(0xf8f0, 0xf900))
+    for cp in sample:
+        if 0xd800 <= cp < 0xe000:
+            continue
+        if ok(cp) != (cp in chars):
+            raise ValueError('%s (%s): U+%04X is %sencodable but %sin the decoding table' % (
+                name, info.name, cp, '' if ok(cp) else 'not ', '' if cp in chars else 'not '))
+    out = []
+    for cp in sorted(chars):
+        if out and out[-1][1] == cp - 1:
+            out[-1][1] = cp
+        else:
+            out.append([cp, cp])
+    return out
+
+
+def probe_extra_encodings():
+    import codecs
+    import latexcodec  # noqa: F401
+    res = []
+    for spellings in EXTRA_ENCODINGS:
+        canon = codecs.lookup(spellings[0]).name
+        for sp in spellings:
+            if codecs.lookup(sp).name != canon:
+                raise ValueError('encoding spelling %r names %s, not %s' % (sp, codecs.lookup(sp).name, canon))
+        ranges = encodable_ranges(spellings[0])
+        inside = lambda cp: any(lo <= cp <= hi for lo, hi in ranges)     # noqa: E731
+        # the encoder of latexcodec with this input encoding: table first for ASCII, then the encoding, then the table
+        for sp in spellings:
+            for cp in (0xe9, 0x141, 0x3b1, 0x20ac, 0x2013, 0x444, 0xdf):
+                c = chr(cp)
+                try:
+                    got = codecs.encode(c, 'ulatex+' + sp)
+                except UnicodeEncodeError:
+                    got = None
+                try:
+                    via_ascii = codecs.encode(c, 'ulatex+ascii')
+                except UnicodeEncodeError:
+                    via_ascii = None
+                want = c if inside(cp) else via_ascii
+                if got != want:
+                    raise ValueError('latex encoder with %r on %r: %r, the model gives %r' % (sp, c, got, want))
+        res.append((spellings, ranges))
+    return res
+
+
+@tables.generator
+def gen_backends_enc():
+    encs = probe_extra_encodings()
+    body = 'import PybtexModel.Model.Basic\nnamespace Pybtex.Gen\n\n'
+    body += ('/-- further input encodings of `latex.Backend(encoding)` / `write_to_file`: (spellings that name the codec in this interpreter,\n'
+             'the code points `c.encode(encoding)` accepts as inclusive ranges) -- %s -/\n' % _safe('; '.join(s[0] for s, _r in encs)))
+    body += 'def extraEncodings : List (List Str × List (Nat × Nat)) :=\n  [%s]\n\n' % ',\n   '.join(
+        '([%s],\n    [%s])' % (', '.join(_chars(sp) for sp in sps), ', '.join('(%d, %d)' % (lo, hi) for lo, hi in rs)) for sps, rs in encs)
+    body += 'end Pybtex.Gen\n'
+    return 'BackendsEnc.lean', body
